@@ -15,11 +15,11 @@ import (
 
 // the universe of suites for the selection enumeration
 var c12U = []refbmc.Suite{
-	{Auth: 3, Integ: 4, Conf: 1}, // 17
-	{Auth: 1, Integ: 1, Conf: 1}, // 3
-	{Auth: 1, Integ: 0, Conf: 0}, // 1
-	{Auth: 1, Integ: 1, Conf: 0}, // 2
-	{Auth: 2, Integ: 2, Conf: 1}, // 8
+	{Auth: 3, Integ: 4, Conf: 1},          // 17
+	{Auth: 1, Integ: 1, Conf: 1},          // 3
+	{Auth: 1, Integ: 0, Conf: 0},          // 1
+	{Auth: 1, Integ: 1, Conf: 0},          // 2
+	{Auth: 2, Integ: 2, Conf: 1},          // 8
 	{Auth: 0x31, Integ: 0x32, Conf: 0x33}, // OEM algorithms
 }
 var c12IDs = []byte{17, 3, 1, 2, 8, 0x81}
